@@ -24,7 +24,8 @@ Directives (one per line, all start with `//@`):
   //@ensures                             followed by `//@   [<obligation name>] <expr>,` lines
   //@loop <n>                            contract for loop ordinal n (0-based, source order)
   //@  invariant / decreases             followed by clause lines
-  //@at /<regex>/ before|after           splice the following `//@   <text>` lines (proof blocks)
+  //@at /<regex>/[#n] before|after       splice (n-th match when the anchor occurs several times)
+  //@at (old form)                       splice the following `//@   <text>` lines (proof blocks)
   //@end
 
 Rewrite rules (closed list, every application logged with source line):
@@ -1304,10 +1305,10 @@ class Gen:
             elif bs == "loop_ensures" and cur_loop is not None:
                 mode = "lens"
             elif bs.startswith("at "):
-                m = re.match(r"at /(.*)/ (before|after)\s*$", bs)
+                m = re.match(r"at /(.*)/(?:#(\d+))? (before|after)\s*$", bs)
                 if not m:
                     raise VxError("%s:%d: bad at-directive" % (self.vspec_path, vl))
-                cur_at = (m.group(1), m.group(2), [])
+                cur_at = (m.group(1), m.group(3), [], int(m.group(2)) if m.group(2) else None)
                 ats.append(cur_at)
                 mode = "at"
             elif bs == "":
@@ -1449,11 +1450,13 @@ class Gen:
                         raise VxError("loop %d of %s::%s is not a for-loop (iter=)" % (n_, rel, name))
                     inserts.append((heads[n_][1], spec["iter"] + ": ", "INLINE"))
                     self.log.append(dict(rule="G1", file=rel, line=fn_line, before="for .. in E", after="for .. in %s: E (ghost iterator name)" % spec["iter"], fn=name))
-        for rx, where, tl in ats:
+        for rx, where, tl, occ in ats:
             ms = list(re.finditer(rx, body))
-            if len(ms) != 1:
+            if occ is None and len(ms) != 1:
                 raise VxError("anchor lost: at /%s/ matched %d times in %s::%s" % (rx, len(ms), rel, name))
-            m = ms[0]
+            if occ is not None and len(ms) < occ:
+                raise VxError("anchor lost: at /%s/#%d but only %d matches in %s::%s" % (rx, occ, len(ms), rel, name))
+            m = ms[0] if occ is None else ms[occ - 1]
             if where == "before":
                 # start of the line
                 off = body.rfind("\n", 0, m.start()) + 1
